@@ -316,7 +316,7 @@ func keptOnlyAcrossAny(c *Ctx, rule string, fn *ssa.Function, gs []Gate, p *Prog
 	construct := FuncName(fn) + "|element kept only across " + strings.Join(names, " ∨ ")
 	var loop *Loop
 	loops := Loops(fn)
-	for _, cs := range CallSinks(fn, rk, false) {
+	for _, cs := range CallSinksX(fn, rk, false) { // (or the call of the per-element helper holding it)
 		loop = InnermostLoop(loops, cs)
 	}
 	if loop == nil {
@@ -324,9 +324,24 @@ func keptOnlyAcrossAny(c *Ctx, rule string, fn *ssa.Function, gs []Gate, p *Prog
 		return
 	}
 	removed := map[Edge]bool{}
+	// the disjunction as a whole may be enforced by a per-element helper
+	orIn := 0
+	if len(gs) > 1 {
+		pe, sites := OrGate(gs).PassEdges(fn)
+		for _, s := range sites {
+			if loop.Blocks[s.Block()] {
+				orIn++
+			}
+		}
+		if orIn > 0 {
+			for e := range pe {
+				removed[e] = true
+			}
+		}
+	}
 	for _, g := range gs {
 		pe, sites := g.PassEdges(fn)
-		inLoop := 0
+		inLoop := orIn
 		for _, s := range sites {
 			if loop.Blocks[s.Block()] {
 				inLoop++
